@@ -104,6 +104,10 @@ def run_change_detection(ctx):
         ctx.violation("change-detection", "ops_changed", "reload preserves a stream's state without looking at its operations at all", site=t["sp"])
         return
     calls = set().union(*[c for _, c in ops_guards])
+    if any(c.endswith("::zip") for c in calls) and not any(c.endswith("::len") or c.endswith("::eq") or c.endswith("::ne") for c in calls):
+        ctx.violation("change-detection", "ops_changed:zip-without-length", "reload compares the old and the new operations pairwise with zip() and never compares their lengths: zip stops at the shorter list, so a stream that gained or lost trailing steps is reported as state_preserved and keeps running the old pipeline", site=b.term(ops_guards[0][0]["sw"]).get("sp") or b.js["span"])
+    else:
+        ctx.ok("change-detection", "ops_changed:length-compared")
     only_len = calls and all(c.endswith("::len") for c in calls)
     if only_len:
         ctx.violation("change-detection", "ops_changed", "reload decides whether a stream's operations changed from `operations.len()` alone: an edit that keeps the number of operations (changed threshold, window size, filter) is reported as state_preserved and the old operators keep running", site=b.term(ops_guards[0][0]["sw"])["sp"] if "sp" in b.term(ops_guards[0][0]["sw"]) else b.js["span"])
